@@ -592,10 +592,8 @@ func (g *gwRun) step(i int, op Op) *Result {
 		dropIfEmpty()
 	case "shift":
 		g.families["shift"] = true
+		// a key may be named twice: the first mention takes the record, the second finds nothing
 		keys := []string{keyName(op.A[1]), keyName(op.A[2])}
-		if keys[0] == keys[1] {
-			keys = keys[:1]
-		}
 		resp, err := cl.shiftByKeys(sw, keys)
 		if cl.hung != "" || !exists {
 			return nil
@@ -604,9 +602,11 @@ func (g *gwRun) step(i int, op Op) *Result {
 			return g.fail("shift_error", "op %d: ShiftByKeys(%s,%v): %v", i, sw, keys, err)
 		}
 		var wantKeys []string
+		taken := map[string]bool{}
 		for _, k := range keys {
-			if m[k] != nil {
+			if m[k] != nil && !taken[k] {
 				wantKeys = append(wantKeys, k)
+				taken[k] = true
 			}
 		}
 		if len(resp.Treasures) != len(wantKeys) {
